@@ -232,6 +232,7 @@ type c04Cfg struct {
 	dead      int
 	proto     *cidlink.LinkPrototype
 	hashName  string
+	padHead   int // exact encoded size of the newest advertisement (0 = natural)
 }
 
 func (c c04Cfg) String() string {
@@ -311,6 +312,14 @@ func runFaultSync(r *simkit.Run, c Cfg, mode string, planner planFunc) {
 
 	cfg, plans := planner(r, c, w)
 	po := PubOpts{Name: "P1", NAds: cfg.preSynced, Discovery: cfg.discovery, Hosts: []string{"10.0.0.1:3104"}, Proto: cfg.proto}
+	if cfg.padHead > 0 {
+		po.PadAd = func(i int) int {
+			if i == cfg.nAds-1 {
+				return cfg.padHead
+			}
+			return 0
+		}
+	}
 	if cfg.preSynced == 0 {
 		po.NAds = 0
 	}
